@@ -39,6 +39,9 @@ def add_noise(e: ESpec):
     # declared through a macro_rules! wrapper that supplies the derives (semantics-preserving, so on every second enum)
     if 'via_macro' not in e.extra and not e.extra.get('pre_items'):
         e.extra['via_macro'] = bool((h >> 66) & 1)
+    # `#[strum(crate = "::strum")]` names the crate every other enum uses implicitly
+    if 'strum_path' not in e.extra and (h >> 70) % 4 == 0:
+        e.extra['strum_path'] = '::strum'
     if h % 3 != 0:
         return
     consumes = set(e.derives)
@@ -58,11 +61,11 @@ def add_noise(e: ESpec):
         if v.attr_layout == 'one':
             v.attr_layout = ['one', 'split', 'rev', 'revsplit'][(r >> 1) % 4]
         # `default` / `transparent` are consumed by EnumString / Display / AsRefStr / IntoStaticStr / ToString only
-        if not (consumes & {'EnumString', 'Display', 'AsRefStr', 'IntoStaticStr', 'ToString', 'AsStaticStr'}) and len(v.ftypes) == 1:
+        if len(v.ftypes) == 1:
             ni = e.extra.setdefault('noise_items', {})
-            if r & 1 and not ni and not v.default:
+            if r & 1 and not ni and not v.default and not (consumes & {'EnumString', 'Display', 'ToString'}):
                 ni[v.ident] = ['default']
-            elif r & 16 and not v.tr:
+            elif r & 16 and not v.tr and v.ident not in ni and not (consumes & {'Display', 'AsRefStr', 'IntoStaticStr', 'AsStaticStr', 'ToString'}):
                 ni[v.ident] = ['transparent']
         # non-string doc attributes must not disturb attribute collection
         if r & 8:
